@@ -656,6 +656,10 @@ def check_operators(prog, rep):
         kws, _ = kwargs_of(ch[0])
         repl = kws.get("replace") if "replace" in kws else (ch[0].args[2] if len(ch[0].args) > 2 else None)
         pool = ch[0].args[0] if ch[0].args else kws.get("a")
+        ldefs = {n.targets[0].id: n.value for n in walk_no_nested(f.node) if isinstance(n, ast.Assign) and len(n.targets) == 1 and isinstance(n.targets[0], ast.Name)}
+        hops = 0
+        while isinstance(pool, ast.Name) and pool.id in ldefs and hops < 4:
+            pool, hops = ldefs[pool.id], hops + 1
         if field_of(pool) != "setspace":
             rep.violate("R4-subsets", f.qualname, "individuals are sampled from %s, not from the operator's set space" % dump(pool), where(f, ch[0]), "self._setspace", dump(pool))
             good = False
@@ -716,9 +720,28 @@ def check_operators(prog, rep):
     Xp = Xp[0]
     m1 = "~np.isin(%s[0, %s, :], %s[1, %s, :])" % (Xp, i, Xp, i)
     m2 = "~np.isin(%s[1, %s, :], %s[0, %s, :])" % (Xp, i, Xp, i)
-    masks = {k: dump(v) for k, v in defs.items() if "isin" in dump(v)}
+
+    def canon_mask(v):
+        """text of a complement-of-membership mask with local row views substituted and `np.isin(a, b, invert=True)` read as `~np.isin(a, b)`"""
+        import copy
+        v = copy.deepcopy(v)
+        for _ in range(3):
+            class Sub(ast.NodeTransformer):
+                def visit_Name(self, n):
+                    d = defs.get(n.id)
+                    return copy.deepcopy(d) if (isinstance(n.ctx, ast.Load) and isinstance(d, ast.Subscript) and n.id != Xp) else n
+            v = Sub().visit(v)
+        if isinstance(v, ast.Call) and dump(v.func) in ("np.isin", "numpy.isin"):
+            kw = {k.arg: k.value for k in v.keywords}
+            if isinstance(kw.get("invert"), ast.Constant) and kw["invert"].value is True and len(v.args) == 2:
+                return "~np.isin(%s, %s)" % (dump(v.args[0]), dump(v.args[1]))
+        return dump(v).replace("numpy.isin", "np.isin")
+    masks = {k: canon_mask(v) for k, v in defs.items() if "isin" in dump(v)}
     mab = [k for k, v in masks.items() if v == m1]
     mba = [k for k, v in masks.items() if v == m2]
+    if (not mab or not mba) and not any(v in (m1.replace("~", "", 1), m2.replace("~", "", 1), m1.replace("[0,", "[1,"), m2.replace("[1,", "[0,")) for v in masks.values()):
+        rep.unrec("R4-subsets", f.qualname, "exchange pools not in the modelled form: %s" % sorted(masks.values()))
+        return
     if not mab or not mba:
         rep.violate("R4-subsets", f.qualname, "exchange pools are not (members of A not in B) and (members of B not in A): %s" % sorted(masks.values()), where(f, loop[0]),
                     "%s ; %s" % (m1, m2), str(sorted(masks.values()))[:80])
@@ -727,10 +750,17 @@ def check_operators(prog, rep):
     ap = [k for k, v in defs.items() if dump(v) == "%s[0, %s, %s]" % (Xp, i, mab)]
     bp = [k for k, v in defs.items() if dump(v) == "%s[1, %s, %s]" % (Xp, i, mba)]
     if not ap or not bp:
-        rep.violate("R4-subsets", f.qualname, "reduced chromosomes are not taken through their own masks", where(f, loop[0]))
+        crossed = [k for k, v in defs.items() if dump(v) in ("%s[0, %s, %s]" % (Xp, i, mba), "%s[1, %s, %s]" % (Xp, i, mab))]
+        if crossed:
+            rep.violate("R4-subsets", f.qualname, "a reduced chromosome (%s) is taken through the OTHER parent's mask" % crossed[0], where(f, loop[0]))
+        else:
+            rep.unrec("R4-subsets", f.qualname, "reduced chromosomes not taken as %s[k, %s, <mask>] (another formulation)" % (Xp, i))
         return
     ap, bp = ap[0], bp[0]
     sw = [s for s in loop[0].body if _swap(s) is not None]
+    if not sw:
+        rep.unrec("R4-subsets", f.qualname, "alleles are not exchanged by a tuple swap (another formulation)")
+        return
     if len(sw) != 1 or {sw[0].targets[0].elts[0].value.id, sw[0].targets[0].elts[1].value.id} != {ap, bp} \
             or dump(sw[0].targets[0].elts[0].slice) != dump(sw[0].targets[0].elts[1].slice):
         rep.violate("R4-subsets", f.qualname, "alleles are not exchanged as %s[mex], %s[mex] = %s[mex], %s[mex] (same index vector on both sides)" % (ap, bp, bp, ap),
